@@ -21,3 +21,4 @@ CFG = {'level': 'exploration',
                     ('record:drop:accept=false', 1),
                     ('record:out-of-range-t:accept=false', 1)]},
  'assumptions': ['SHA-256 collisions do not occur', 'ref/refmerkle transcribes the RFCs correctly']}
+CFG['level_text'] += ' Each run also drives the provers on virtual logs of 2^31 … 2^61 records (all equal but a few special ones): tree hash, audit paths and consistency proofs must be exactly those of RFC 6962 evaluated on the same virtual log, the checkers must accept them, and no hash outside the tree may be asked for.'
